@@ -4,6 +4,7 @@
 The prompt contains the property's text only — nothing from /verif."""
 import json, subprocess, sys
 tag, ids = sys.argv[1], sys.argv[2:]
+structure_preserving = tag.startswith('e')
 props = {json.loads(l)['id']: json.loads(l) for l in open('/verif/properties.jsonl')}
 base = '''You are helping to evaluate a verification tool by producing a realistic regression for a Go project. Work ONLY inside the scratch git worktree {wt} (a checkout of the project goblimey/go-ntrip: a Go library and small applications that frame, CRC-check and decode RTCM3 GNSS messages from NTRIP byte streams). Do not read, list or touch /verif or /repo, and do not look at any other /tmp/wt-* directory; everything you need is in {wt}.
 
@@ -30,5 +31,9 @@ for i, pid in enumerate(ids, 1):
     subprocess.run(['git', '-C', '/repo', 'worktree', 'add', '-q', '--detach', wt, 'HEAD'], check=True)
     p = props[pid]
     prop = json.dumps({k: p[k] for k in ('id', 'title', 'statement', 'quantifier', 'why_tests_cant')}, indent=1)
-    open(f'/tmp/prompt-{tag}{i}.full.txt', 'w').write(base.format(wt=wt, prop=prop, pid=pid))
+    text = base.format(wt=wt, prop=prop, pid=pid)
+    if structure_preserving:
+        text = text.replace('Prefer changes that keep the overall structure of the code (same functions, same if-statements) where that is possible.',
+            'IMPORTANT extra constraint for this round: keep the STRUCTURE of the code textually unchanged - do not add, remove or edit any `if` condition, `for`/`range` header, `switch`/`case` line, function signature, `go` statement, channel operation, lock call or `defer`; do not add or remove functions or calls of helper functions. Change only what is INSIDE: an operand, an arithmetic expression, an index or slice bound, a constant, a shift amount, a format verb, the argument of a call, the order of two adjacent plain statements, which variable is assigned or returned. (The existing structure must survive a diff that looks only at conditions and loop headers.)')
+    open(f'/tmp/prompt-{tag}{i}.full.txt', 'w').write(text)
     print(wt, pid)
